@@ -1,4 +1,5 @@
 import CedarVerif.Lemmas.Ffi
+import CedarVerif.Lemmas.FfiPolicies
 /-
 C19 — JSON/FFI, stateful cache and CLI give exactly the API answers.
 
@@ -140,7 +141,7 @@ theorem exit_code_table :
 
 /-- `cedar authorize`: status and printed line determine (and are determined by) the response's decision;
 `cedar validate`: 3 exactly when inputs were readable and validation did not pass -/
-theorem authorize_exit_reflects_response (ans : Answer Decision) :
+theorem authorize_exit_reflects_response (ans : Answer Ffi.Decision) :
     ((authorizeExit ans).report = 0 ↔ ans = .success .allow) ∧
     ((authorizeExit ans).report = 2 ↔ ans = .success .deny) ∧
     ((authorizeExit ans).report = 1 ↔ ans = .failure) ∧
@@ -158,5 +159,109 @@ theorem validate_exit_table (inputsOk passed pww deny : Bool) :
   cases inputsOk <;> cases passed <;> cases pww <;> cases deny <;> decide
 
 example : (authorizeExit (.success .deny)).report = 2 ∧ authorizePrinted (.success .deny) = some "DENY" := by decide
+
+end Cedar.C19
+
+/-! ## policy-set assembly: `ffi::PolicySet::parse` = an explicit history of API calls
+
+Model: `Cedar/FfiPolicies.lean` (mirror of cedar-policy/src/ffi/utils.rs); vocabulary: `Lemmas/FfiPolicies.lean`.
+  `staticAdds sp`    the static part's document-level outcome: the bodies WITH THEIR ASSIGNED IDS (`policy{n}` by position
+                     for a concatenated text; the map key for the map form; the default id "policy0" / "JSON policy" for every
+                     element of the list form) or the errors reported before any API call;
+  `tailItems f`      one item per template (in the map's iteration order) then one per link (in list order): a document
+                     error, or the API call `add_template (t with id)` / `link tid newId vals` with its error wrapper;
+  `apiHistoryOf bs f` = `[add b | b ∈ bs] ++ [add_template …]* ++ [link …]*` — the order of the Rust loops;
+  `runStrict s ops`  the history run from `s` where the first failing call aborts;
+  `errsOf s items`   the errors the FFI's loops collect from state `s` (a failing call logs and the loop continues). -/
+namespace Cedar.C19
+open Cedar Cedar.FfiP
+
+/-- C19 (assembly): `ffi::PolicySet::parse` computes exactly the API history `add* ++ add_template* ++ link*` from the
+empty set, and reports exactly these errors, in this order:
+* static documents that fail (all of them; or "static policy set includes a template"), or else the FIRST failing
+  `add` (`from_policies` aborts) — in both cases the templates and links are then processed FROM THE EMPTY SET and their
+  errors (including follow-ups such as `link` to a template that is there but whose static namesake is not) are appended;
+* then, per template and per link in order, the parse error of the document or the error of the API call. -/
+theorem assemble_eq_api_history (f : FfiPolicySet) :
+    assemble f =
+      (match staticAdds f.staticPolicies with
+       | .error es => .error (es ++ errsOf {} (tailItems f))
+       | .ok bs =>
+         match runStrict {} (bs.map ApiOp.add) with
+         | .error e => .error (staticWrap f.staticPolicies e :: errsOf {} (tailItems f))
+         | .ok s0 =>
+           if (errsOf s0 (tailItems f)).isEmpty then .ok (ApiPolicySet.run {} (apiHistoryOf bs f))
+           else .error (errsOf s0 (tailItems f))) := by
+  unfold assemble
+  rw [assembleSteps_eq, static_parse_eq]
+  cases hs : staticAdds f.staticPolicies with
+  | error es =>
+    have hne := staticAdds_error_ne_nil _ _ hs
+    cases es with
+    | nil => exact absurd rfl hne
+    | cons e es => simp
+  | ok bs =>
+    dsimp only
+    cases hr : runStrict {} (bs.map ApiOp.add) with
+    | error e => simp
+    | ok s0 =>
+      have h0 := runStrict_ok_run _ _ _ hr
+      dsimp only
+      rw [apiHistoryOf, api_run_append, ← h0]
+
+/-- C19 (assembly), success characterised: the FFI returns a set iff every document parses (static policies, templates,
+link values; no template among concatenated policies) and EVERY call of the explicit API history succeeds — and then it
+returns the set that history builds. -/
+theorem assemble_ok_iff (f : FfiPolicySet) (s : ApiPolicySet) :
+    assemble f = .ok s ↔
+      ∃ bs, staticAdds f.staticPolicies = .ok bs ∧ noBad (tailItems f) = true ∧
+        runStrict {} (apiHistoryOf bs f) = .ok s := by
+  rw [assemble_eq_api_history]
+  cases hs : staticAdds f.staticPolicies with
+  | error es => simp
+  | ok bs =>
+    dsimp only
+    simp only [Except.ok.injEq, exists_eq_left', apiHistoryOf, runStrict_append]
+    cases hr : runStrict {} (bs.map ApiOp.add) with
+    | error e => simp
+    | ok s0 =>
+      dsimp only
+      have h0 := runStrict_ok_run _ _ _ hr
+      by_cases he : errsOf s0 (tailItems f) = []
+      · obtain ⟨hb, s', hs'⟩ := (errsOf_nil_iff _ _).mp he
+        have h1 := runStrict_ok_run _ _ _ hs'
+        simp only [he, List.isEmpty_nil, if_true, Except.ok.injEq, hb, true_and, hs']
+        rw [api_run_append, ← h0, ← h1]
+      · have hne : (errsOf s0 (tailItems f)).isEmpty = false := by
+          cases h : errsOf s0 (tailItems f) with
+          | nil => exact absurd h he
+          | cons _ _ => rfl
+        simp only [hne, Bool.false_eq_true, if_false, reduceCtorEq, false_iff, not_and]
+        intro hb hr'
+        exact he ((errsOf_nil_iff _ _).mpr ⟨hb, s, hr'⟩)
+
+/-- C19 (assembly): a set the FFI returns satisfies the C08 invariants of API-built sets: the API layer's `WF`, the
+core representation invariant (no id shared between maps except the two halves of a static policy, every link's
+template present, `template_to_links_map` exact) and `Strict` (the hypothesis of C08 `merge_inv`).
+Hypothesis: the template parser returns templates with at least one slot (`Template::parse`: trusted, C05). -/
+theorem assemble_inv (f : FfiPolicySet) (s : ApiPolicySet) (hs : f.TemplatesHaveSlots) (h : assemble f = .ok s) :
+    s.WF ∧ s.ast.WF ∧ s.ast.Strict := by
+  obtain ⟨bs, _, _, hr⟩ := (assemble_ok_iff f s).mp h
+  have h0 := runStrict_ok_run _ _ _ hr
+  have wt := apiHistoryOf_wellTyped bs f hs
+  subst h0
+  have wf := ApiPolicySet.run_wf _ {} ApiPolicySet.wf_empty wt
+  exact ⟨wf, wf.ast, ApiPolicySet.run_strict _ {} ApiPolicySet.wf_empty (by intro k p h; simp at h) wt⟩
+
+/-- C19 (assembly), corollary: authorizing with the set the FFI assembled is authorizing (C01's `isAuthorized` over
+`PolicySet::policies()`) with the set the Rust API builds by the explicit history. -/
+theorem assemble_authorize (f : FfiPolicySet) (s : ApiPolicySet) (h : assemble f = .ok s) (req : Request) (es : Entities) :
+    s.authorize req es = (ApiPolicySet.run {} (apiHistory f)).authorize req es ∧
+    s.authorize req es = isAuthorized req es (ApiPolicySet.run {} (apiHistory f)).ast.policies := by
+  obtain ⟨bs, hb, _, hr⟩ := (assemble_ok_iff f s).mp h
+  have h0 := runStrict_ok_run _ _ _ hr
+  have : apiHistory f = apiHistoryOf bs f := by simp [apiHistory, hb]
+  rw [this, ← h0]
+  exact ⟨rfl, rfl⟩
 
 end Cedar.C19
